@@ -13,6 +13,11 @@ type xof struct {
 	// key is here to not make excess garbage during repeated calls
 	// to XORKeyStream.
 	key []byte
+	// seed1 is the part of the seed used as the key of the underlying
+	// implementation (seed holds the rest); kept so that Reset can rebuild
+	// the initial state after a Reseed
+	seed1    []byte
+	reseeded bool
 }
 
 // New creates a new XOF using the blake2s hash.
@@ -37,7 +42,10 @@ func New(seed []byte) kyber.XOF {
 	seedCopy := make([]byte, len(seed2))
 	copy(seedCopy, seed2)
 
-	return &xof{impl: b, seed: seedCopy}
+	seed1Copy := make([]byte, len(seed1))
+	copy(seed1Copy, seed1)
+
+	return &xof{impl: b, seed: seedCopy, seed1: seed1Copy}
 }
 
 func (x *xof) Clone() kyber.XOF {
@@ -71,9 +79,21 @@ func (x *xof) Reseed() {
 		panic("y could not be casted to XOF")
 	}
 	x.impl = yXof.impl
+	x.reseeded = true
 }
 
 func (x *xof) Reset() {
+	if x.reseeded {
+		// Reseed replaced the implementation by one keyed with sampled
+		// output; resetting that one would not give the initial state back.
+		y, ok := New(append(append([]byte{}, x.seed1...), x.seed...)).(*xof)
+		if !ok {
+			panic("y could not be casted to XOF")
+		}
+		x.impl = y.impl
+		x.reseeded = false
+		return
+	}
 	x.impl.Reset()
 	_, _ = x.impl.Write(x.seed)
 }
